@@ -20,6 +20,7 @@ import (
 
 	"github.com/ErdemOzgen/blackdagger/internal/persistence/jsondb"
 	"github.com/ErdemOzgen/blackdagger/verifh/core"
+	"github.com/ErdemOzgen/blackdagger/verifh/pgrp"
 )
 
 // c05proc <marker> <name> <mode>: modes exit-on-term | ignore-term | exit-on-int | quick
@@ -102,6 +103,27 @@ func pidAlive(pid int) bool {
 		return s[i+2] != 'Z' && s[i+2] != 'X'
 	}
 	return true
+}
+
+// pidOfRun: the process that owns the number now is alive AND was started inside the trial's
+// run (every process of a run inherits HOME=<the trial's own directory> from `blackdagger start`).
+// The number alone does not identify a process: pid_max is 32768 here, and when something on the
+// machine goes through ids quickly (the C16 storm pass) a step's number can name a stranger a few
+// seconds after the step has gone.
+func pidOfRun(pid int, root string) bool {
+	if !pidAlive(pid) {
+		return false
+	}
+	b, err := os.ReadFile(fmt.Sprintf("/proc/%d/environ", pid))
+	if err != nil {
+		return false
+	}
+	for _, kv := range strings.Split(string(b), "\x00") {
+		if kv == "HOME="+root {
+			return true
+		}
+	}
+	return false
 }
 
 func c05RealBody(c *core.Ctx) {
@@ -199,8 +221,9 @@ func c05RealTrial(c *core.Ctx, idx int, self string, cs c05RealCase) {
 		return
 	}
 	done := make(chan struct{})
+	grp := pgrp.Open(cmd.Process.Pid)
 	go func() { _ = cmd.Wait(); close(done) }()
-	defer func() { _ = syscall.Kill(-cmd.Process.Pid, syscall.SIGKILL) }()
+	defer grp.KillClose()
 	// wait until the main step runs
 	began := func(name string) bool {
 		for _, e := range readProcMarker(marker) {
@@ -298,7 +321,7 @@ func c05RealTrial(c *core.Ctx, idx int, self string, cs c05RealCase) {
 		}
 	}
 	for p, n := range pids {
-		if pidAlive(p) {
+		if pidOfRun(p, h.root) {
 			c.Violate(idx, "real-process-left|"+key, fmt.Sprintf("after the run ended the process of step %s (pid %d) is still alive", n, p), desc)
 			_ = syscall.Kill(p, syscall.SIGKILL)
 		}
